@@ -45,6 +45,7 @@ def run(ctx, ck):
     s8_adjust_repeats(ctx, ck)
     s9_convert_row(ctx, ck)
     s10_combination_iterator(ctx, ck)
+    s11_dispatch(ctx, ck)
 
 
 # ---------------------------------------------------------------------------------------------
@@ -798,3 +799,52 @@ def s10_combination_iterator(ctx, ck):
         else:
             oka = False
     ck.ob("C13-S10", an.path, "one-AliasCombination-per-digit-vector,ending-when-the-counter-ends", oka and seen == {"some", "end"})
+
+
+def s11_dispatch(ctx, ck):
+    fn = FLI + "convert_mapping"
+    b = ctx.body(fn)
+    amaps, m = T("param", 1, b.dbg.get(1, "")), T("param", 2, b.dbg.get(2, ""))
+    seen = {}
+    for p in mir.walk_function(b):
+        if p.outcome[0] != "return":
+            continue
+        v = _variant_guard(p, lambda t: mir.strip(t) == m)
+        r = p.outcome[1]
+        if isinstance(r, tuple) and r[0] == "agg" and r[2] == "Ok":
+            r = r[3][0]
+        seen[v] = r
+    pay = lambda v: T("field", T("variant", m, v), "0")
+    ok = (set(seen) == {"Alias", "Single", "Row", "RepeatOnlySingle"}
+          and seen["Single"] == T("call", FLI + "convert_single", (amaps, pay("Single")), seen["Single"][3] if isinstance(seen["Single"], tuple) and len(seen["Single"]) > 3 else None)
+          and seen["Row"][:3] == ("call", FLI + "convert_row", (amaps, pay("Row")))
+          and seen["Alias"][:3] == ("call", FLI + "convert_alias", (pay("Alias"),))
+          and isinstance(seen["RepeatOnlySingle"], tuple) and seen["RepeatOnlySingle"][0] == "call" and method_name(seen["RepeatOnlySingle"][1]) == "new")
+    ck.ob("C13-S11", fn, "each-kind-of-source-mapping-goes-to-its-own-converter;repeat-only-entries-produce-nothing-here", ok, detail=str(sorted(map(str, seen))))
+    fa = FLI + "convert_alias"
+    ab = ctx.body(fa)
+    al = T("param", 1, ab.dbg.get(1, ""))
+    okA = True
+    kinds = set()
+    for p in mir.walk_function(ab):
+        if p.outcome[0] != "return":
+            continue
+        g = [e.b for e in p.events if e.kind == "guard" and isinstance(e.a, tuple) and e.a[0] == "call" and e.a[1] == FLI + "is_just_one_modifier"
+             and mir.strip(e.a[2][0]) == T("field", T("field", al, "from"), "keys")]
+        maps = [s_ for e in p.events for t in (e.a, e.b) if isinstance(t, tuple) for s_ in subterms(t)
+                if isinstance(s_, tuple) and len(s_) > 4 and s_[0] == "agg" and s_[1] == "keys::Mapping"]
+        if g == [True]:
+            kinds.add("modifier-alias")
+            okA = okA and not maps and isinstance(p.outcome[1], tuple) and p.outcome[1][0] == "call" and method_name(p.outcome[1][1]) == "new"
+        elif g == [False]:
+            kinds.add("chord-alias")
+            if len({m_ for m_ in maps}) != 1:
+                okA = False
+                continue
+            f = dict(zip(maps[0][4], maps[0][3]))
+            okA = okA and f.get("from") == T("clone", T("field", T("field", al, "from"), "keys")) and f.get("to") == T("clone", T("field", T("field", al, "to"), "initial")) \
+                and isinstance(f.get("repeat"), tuple) and f["repeat"][2] == "Normal" and isinstance(f.get("absorbing"), tuple) and f["absorbing"][0] == "call" and method_name(f["absorbing"][1]) == "new"
+        else:
+            okA = False
+    ck.ob("C13-S11", fa, "alias-definition:a-single-modifier-produces-no-mapping,anything-else-one-plain-mapping(from->to,Normal,no-absorbing)", okA and kinds == {"modifier-alias", "chord-alias"},
+          detail=str(sorted(kinds)))
